@@ -52,7 +52,9 @@ EndEv ==
   /\ (whole # model /\ ~stuck => Report("DRIFT", e, [whole |-> whole, model |-> model, wire |-> wire]))
   /\ UNCHANGED <<ovars, alone, bad>>
 
-StuckEv == Log[l].op = "stuck" /\ Report("DRIFT", Log[l], "senders did not finish") /\ UNCHANGED <<ovars, alone, bad>>
+(* a schedule run whose senders had not all finished when the harness gave up waiting (a loaded machine): the run is not
+   judged; the orchestration turns it into drift only when many runs end that way *)
+StuckEv == Log[l].op = "stuck" /\ Report("NOTE", Log[l], "senders did not finish") /\ UNCHANGED <<ovars, alone, bad>>
 
 LedgerEv ==
   LET e == Log[l]
